@@ -170,4 +170,13 @@ func init() {
 	reg(&HarnessSpec{Prop: "C03", Name: "C14BadNotation", What: whatBad + " - for C03: every WELL-FORMED entry of the menu is accepted with one function per method", Bounds: "skeleton bad", Assumes: []string{aT, aSlots}})
 	reg(&HarnessSpec{Prop: "C03", Name: "C08CreateFunction", What: "every documented-legal operand shape of the 120-signature catalogue is accepted (rejected-iff-documented-illegal)", Bounds: "skeleton sig", Assumes: []string{aT}})
 	reg(&HarnessSpec{Prop: "C03", Name: "G:basic", What: "the tool accepts every corpus case (a rejected or non-compiling corpus case is a violation by itself)", Bounds: "corpus", Assumes: []string{aG}})
+
+	// ---------------------------------------------------------------- C11 remaining clauses
+	reg(&HarnessSpec{Prop: "C11", Name: "C11Directives", Replay: "none",
+		What:    "the real compiled expressions reGoBuildGen / reNotation / reConvergen (symbolic simulation of their regexp/syntax programs) against the documented spellings with symbolic tails: //go:build convergen, // +build convergen, //go:generate ..., // :name args, // :convergen are recognised (hence removed); an ordinary line or block comment whose text starts with a letter (and not with 'go:') is never recognised, whatever it mentions further on (up to 22 bytes); ':convergenX' is no marker",
+		Bounds:  "symbolic ASCII tails of 4..22 bytes, every length case-split", Assumes: []string{aRe}})
+	reg(&HarnessSpec{Prop: "C11", Name: "C11DocForwarding",
+		What:    "real Parse + CreateFunctions on skeleton docs (package comment containing a ':skip' line, commented declarations around the interface, interface/method doc comments from menus mixing text, blank and notation lines, methods without doc comment): every function's doc = the non-notation lines of ITS method's own doc comment in order; notations apply where they stand only; the package comment and the comments of other declarations stay in the syntax tree, the package doc stays attached",
+		Bounds:  "skeleton docs; 4x5x3 doc-comment menus", Assumes: []string{aT, aSlots}})
+	reg(&HarnessSpec{Prop: "C09", Name: "C11DocForwarding", What: "notations of the package comment or of an enclosing declaration never reach a method without doc comment (see C11DocForwarding)", Bounds: "skeleton docs", Assumes: []string{aT, aSlots}})
 }
